@@ -934,8 +934,8 @@ func run(c *core.Ctx) {
 	rng := c.Rng
 	fuzzEvery = uint32(c.N(10, 1))
 	tieEvery = uint32(c.N(2, 1))
-	tieMaxLen = c.N(400, 6000)
-	fuzzMaxLen = c.N(120, 1500)
+	tieMaxLen = c.N(400, 2000)
+	fuzzMaxLen = c.N(120, 600)
 
 	// corpus: regressions first
 	corpus := []c04Case{
@@ -971,7 +971,7 @@ func run(c *core.Ctx) {
 	}
 	c.Note("exhaustive: all sequences of length <= 4 over {min,-1,0,1,max} for DELTA_BINARY_PACKED int32 and int64")
 
-	reps := c.N(1, 6)
+	reps := c.N(1, 3)
 	for rep := 0; rep < reps; rep++ {
 		for _, n := range lengths {
 			if c.Quick() && n > 300 && rep > 0 {
@@ -1079,7 +1079,7 @@ func run(c *core.Ctx) {
 	// history: one encoder value and one destination reused across many calls
 	histDst := make([]byte, 0, 64)
 	e := &delta.BinaryPackedEncoding{}
-	for i := 0; i < c.N(200, 2000); i++ {
+	for i := 0; i < c.N(200, 800); i++ {
 		src := make([]int32, rng.Intn(300))
 		ints := make([]int64, len(src))
 		for j := range src {
